@@ -280,12 +280,6 @@ def symlinked_places(sb, R, rng, tier):
             shutil.rmtree(os.path.join(root, rel))
             os.symlink(big, os.path.join(root, rel))
             before = sb.outside(proj)
-            if where == "artifact" and cmd[0] == "commit":
-                # an artifact whose OWN path is a link to a directory elsewhere (`data -> /bigdisk/data`) is a layout the user chose:
-                # commit follows it (os.Stat / ReadDir) and manages the files there. C18 quantifies over what stage files, the index and
-                # manifests contain, not over links the user puts at an artifact's path: no verdict (DESIGN §8, "also noticed")
-                proj.cleanup()
-                continue
             rc, so, se = proj.dud(cmd, cwd=root)
             after = sb.outside(proj)
             R.count("symlinked-%s-%s" % (where, "-".join(cmd)), True)
